@@ -179,6 +179,20 @@ func (s *sys) invariants() {
 			}
 		}
 	}
+	// a task that hangs on a role of a live environment and is alive is locked: that is what kill, cleanup and claim
+	// look at to leave it alone
+	locked := s.w.TaskLocked()
+	for slot, id := range s.ids {
+		if _, ok := envs[id]; !ok {
+			continue
+		}
+		ts, _ := s.w.EnvTasksAndDetectors(id)
+		for _, t := range ts {
+			if st := s.w.M.Tasks[t]; st != nil && st.Alive && owners[t] == id && !locked[t] {
+				s.fail("owned-task-not-locked", "task %s of live environment %s is attached to its role but no longer counts as locked", t, slot)
+			}
+		}
+	}
 	// tasks of live environments' role trees pairwise disjoint
 	seen := map[string]string{}
 	dets := map[string]string{}
@@ -337,6 +351,19 @@ func (s *sys) apply1(op string) bool {
 		s.snapshotOthers("")
 		s.w.Cleanup(nil)
 		vrt.Quiesce("op")
+	case op == "reconnect":
+		// the master connection drops and comes back while nothing is going on: the core resubscribes and asks for
+		// reconciliation; the answers are master-generated updates, which carry no executor id. No environment is
+		// the subject of this: all of them must come through unchanged (also in what follows: BFS chains on)
+		if len(envs) == 0 {
+			return false
+		}
+		s.snapshotOthers("")
+		s.w.M.ReconcileOmitExecutor = true
+		s.w.M.Drop()
+		vrt.Quiesce("op")
+		vrt.Sleep(5 * time.Second)
+		vrt.Quiesce("op")
 	case strings.HasPrefix(op, "cleanupIds"):
 		slot := op[len(op)-1:]
 		id, _, ok := live(slot)
@@ -394,7 +421,7 @@ func (s *sys) key() string {
 	return strings.Join(parts, " ") + fmt.Sprintf(" roster=%d", len(owners))
 }
 
-var ops = []string{"createA", "createB", "createC", "createAx", "createBx", "startA", "stopA", "resetA", "startB", "destroyA", "destroyForceA", "destroyKeepA", "destroyB", "destroyC", "cleanupAll", "cleanupIdsA", "cleanupIdsB"}
+var ops = []string{"createA", "createB", "createC", "createAx", "createBx", "startA", "stopA", "resetA", "startB", "destroyA", "destroyForceA", "destroyKeepA", "destroyB", "destroyC", "cleanupAll", "cleanupIdsA", "cleanupIdsB", "reconnect"}
 
 func execHistory(hist []int) (key string, applicable bool, viol []vrt.Violation) {
 	return execHistoryOn(ops, false)(hist)
